@@ -126,7 +126,10 @@ def run_engine(ex: Execution, spec: Spec, oracle: Oracle) -> tuple[Any, list[Any
         h.limits = limits_of(wf)
         h.workflow = wf
         state: dict[str, Any] = {"hd": wf.run(run_id="r1"), "wf": wf, "resumed": False, "e": e}
-        state["consumer"] = e.consume_stream(state["hd"])
+        if spec.params.get("consumer_leaves_after"):
+            state["consumer"] = e.consume_stream_in_sittings(state["hd"], int(spec.params["consumer_leaves_after"]))
+        else:
+            state["consumer"] = e.consume_stream(state["hd"])
         h.run_done = lambda: state["hd"].is_done() or state["hd"]._external_adapter._queues.complete.done()
         h.state = state
         if spec.scripts:
